@@ -123,6 +123,24 @@ func Gen(full bool) func(p *simrt.Tape) any {
 				pl.Faults["bn0/"+meth] = l
 			}
 		}
+		// slow duty requests overlapping reorgs: an answer that was under way when the roots changed
+		if p.Pct(25) {
+			pl.Faults = map[string][]Outcome{}
+			for _, meth := range []string{"AttesterDuties", "ProposerDuties", "SyncCommitteeDuties"} {
+				var l []Outcome
+				for i := 0; i < 10; i++ {
+					o := Outcome{}
+					if p.Pct(60) {
+						o.Latency = []time.Duration{slot / 2, slot, slot, 2 * slot}[p.Pick(4)]
+					}
+					l = append(l, o)
+				}
+				pl.Faults["bn0/"+meth] = l
+			}
+			for i, n := 0, p.Range(2, 4); i < n; i++ {
+				pl.Reorgs = append(pl.Reorgs, syssim.Reorg{Slot: startSlot + uint64(p.Intn(int(pl.HorizonSlots-startSlot))), Kind: p.Pick(3)})
+			}
+		}
 		return pl
 	}
 }
@@ -299,6 +317,12 @@ func Oracle(rec *syssim.Record, out *sim.Outcome) *simrt.Violation {
 			}
 			return l
 		}
+		// ---- a head event showing changed duty-dependent roots makes vouch obtain the affected duties anew.
+		// (Everything below derives what is owed from what vouch obtained, so a refresh that never
+		// happens has to be demanded here, from the events the node delivered.)
+		if v := refreshOwed(rec, inc, fetches, slotStart, endOfRun, out); v != nil {
+			return v
+		}
 		// ---- attestations
 		for _, inv := range rec.Invs("attest") {
 			if inv.Inc != inc.N {
@@ -427,6 +451,21 @@ func Oracle(rec *syssim.Record, out *sim.Outcome) *simrt.Violation {
 			if !ok {
 				return Viol("C03/propose-without-duty", "Propose for slot %d validator %v at %v matches no proposer duty obtained in incarnation %d", inv.Slot, inv.Validators, inv.T, inc.N)
 			}
+			// ... and it is the duty set obtained last: a refresh replaces the jobs of the answers before it
+			var done []*syssim.DutyFetch
+			inflight := false
+			for _, f := range byEpoch("proposer", e) {
+				if !f.Err && f.EndStep != 0 && f.EndStep <= inv.Step {
+					done = append(done, f)
+				} else if f.Step <= inv.Step && (f.EndStep == 0 || f.EndStep > inv.Step) {
+					inflight = true
+				}
+			}
+			if last := done[len(done)-1]; !inflight && last.EndT != inv.T {
+				if v, has := last.Prop[inv.Slot]; !has || v != inv.Validators[0] {
+					return Viol("C03/propose-replaced-duty", "Propose for slot %d validator %v at %v: the proposer duties of epoch %d obtained last (at %v, incarnation %d) do not contain that duty", inv.Slot, inv.Validators, inv.T, e, last.EndT, inc.N)
+				}
+			}
 			if inv.T < slotStart(inv.Slot) {
 				return Viol("C03/propose-too-early", "Propose for slot %d ran at %v, before the slot started", inv.Slot, inv.T)
 			}
@@ -547,4 +586,126 @@ func Oracle(rec *syssim.Record, out *sim.Outcome) *simrt.Violation {
 func init() {
 	sim.Register(&sim.Scenario{Property: "C03", Name: "focused", Gen: Gen(false), Exec: exec, Weight: 3})
 	sim.Register(&sim.Scenario{Property: "C03", Name: "full", Gen: Gen(true), Exec: exec, Weight: 1})
+}
+
+// refreshOwed: for two consecutive head events A, B delivered to one incarnation,
+//   - same epoch e, previous dependent root differs: attester duties of e are requested again;
+//   - same epoch e, current dependent root differs: attester duties of e+1 and proposer duties of e are requested again;
+//   - B in epoch e+1 and B's previous root differs from A's current root: attester duties of e+1 are requested again;
+// unless nothing of the affected epoch is left to run.  The request must start at the instant of B (the
+// handler starts the refresh before it does anything that takes time; it may wait for duty requests
+// already in flight) and after B was delivered.
+func refreshOwed(rec *syssim.Record, inc *syssim.Incarnation, fetches []*syssim.DutyFetch, slotStart func(uint64) time.Duration, endOfRun time.Duration, out *sim.Outcome) *simrt.Violation {
+	pl := rec.Plan
+	var heads []*syssim.HeadDelivery
+	simrt.Crit(func() {
+		for _, h := range rec.H.Heads {
+			if h.Inc == inc.N {
+				heads = append(heads, h)
+			}
+		}
+	})
+	for _, h := range heads {
+		if h.Odd {
+			return nil // vouch's record of the last roots is then unspecified
+		}
+	}
+	sort.SliceStable(heads, func(i, j int) bool { return heads[i].Step < heads[j].Step })
+	spe := pl.SlotsPerEpoch
+	curSlotAt := func(t time.Duration) uint64 {
+		if t < slotStart(0) {
+			return 0
+		}
+		return uint64((t - slotStart(0)) / (slotStart(1) - slotStart(0)))
+	}
+	need := func(b *syssim.HeadDelivery, kind string, e uint64, why string) *simrt.Violation {
+		// only duties that were asked for before can need replacing (the next epoch is prepared part-way through the current one)
+		had := false
+		for _, f := range fetches {
+			if f.Kind == kind && f.Epoch == e && f.Step < b.Step {
+				had = true
+			}
+		}
+		if !had {
+			return nil
+		}
+		// the refresh may have to wait for duty requests that are in flight when the event arrives
+		// (duty requests are serialised: everything in flight at the event, and whatever starts while that is
+		// in flight, may come first)
+		by := b.T
+		for changed := true; changed; {
+			changed = false
+			for _, f := range fetches {
+				if f.T <= by && (f.EndStep == 0 || f.EndStep > b.Step) {
+					if f.EndStep == 0 {
+						return nil // still in flight at the end of the run
+					}
+					if f.EndT > by {
+						by, changed = f.EndT, true
+					}
+				}
+			}
+		}
+		for _, f := range fetches {
+			if f.Kind == kind && f.Epoch == e && f.Step > b.Step && f.T <= by {
+				out.Probes["refresh-after-root-change-checked"]++
+				return nil
+			}
+		}
+		if by+time.Second > endOfRun || (inc.End >= 0 && inc.End < by+time.Second) {
+			return nil
+		}
+		var near []string
+		for _, f := range fetches {
+			if f.T >= b.T-2*time.Second && f.T <= b.T+2*time.Second {
+				near = append(near, fmt.Sprintf("%s/%d@%v", f.Kind, f.Epoch, f.T))
+			}
+		}
+		return Viol("C03/no-refresh-after-dependent-root-change", "head event for slot %d delivered at %v to incarnation %d (alive since %v): %s, but %s duties of epoch %d were not requested again (duty requests within 2s: %v)", b.Slot, b.T, inc.N, inc.Start, why, kind, e, near)
+	}
+	for i := 1; i < len(heads); i++ {
+		a, b := heads[i-1], heads[i]
+		if b.T == a.T || a.EndStep == 0 && a.T == b.T {
+			continue // two streams at one instant: which one vouch handled first is not observable here
+		}
+		if b.T+time.Second > endOfRun || (inc.End >= 0 && inc.End < b.T+time.Second) {
+			continue
+		}
+		ea, eb := a.Slot/spe, b.Slot/spe
+		if ea == 0 {
+			// in the genesis epoch both dependent roots are the genesis block root and cannot change on a
+			// real chain (the model's reorgs there are not physical), so nothing is demanded
+			continue
+		}
+		cur := curSlotAt(b.T)
+		if cur/spe != eb {
+			continue // a late event about an earlier epoch: the affected epoch is relative to the clock
+		}
+		lastOfEpoch := (eb+1)*spe - 1
+		switch {
+		case ea == eb:
+			if a.Prev != b.Prev && cur < lastOfEpoch {
+				if v := need(b, "attester", eb, "its previous duty dependent root differs from the one of the event before"); v != nil {
+					return v
+				}
+			}
+			if a.Cur != b.Cur {
+				if v := need(b, "attester", eb+1, "its current duty dependent root differs from the one of the event before"); v != nil {
+					return v
+				}
+				if cur < lastOfEpoch {
+					if v := need(b, "proposer", eb, "its current duty dependent root differs from the one of the event before"); v != nil {
+						return v
+					}
+				}
+			}
+		case eb == ea+1:
+			if b.Prev != a.Cur && cur < lastOfEpoch {
+				if v := need(b, "attester", eb, "first event of the epoch, and its previous duty dependent root is not the current one of the epoch before"); v != nil {
+					return v
+				}
+			}
+		}
+	}
+	return nil
 }
